@@ -723,6 +723,18 @@ static int load_dynsymtab(struct uftrace_symtab *dsymtab, const char *filename,
 
 	pr_dbg3("loading dynamic symbols from %s (offset: %#lx)\n", filename, offset);
 	load_elf_dynsymtab(dsymtab, &elf, offset, flags);
+
+	/* load_elf_dynsymtab() adjusts its own copy of the offset only */
+	if (flags & SYMTAB_FL_ADJ_OFFSET) {
+		struct uftrace_elf_iter iter;
+
+		elf_for_each_phdr(&elf, &iter) {
+			if (iter.phdr.p_type == PT_LOAD) {
+				offset -= iter.phdr.p_vaddr;
+				break;
+			}
+		}
+	}
 	arch_load_dynsymtab_noplt(&dsymtab_noplt, &elf, offset, flags);
 	merge_symtabs(dsymtab, &dsymtab_noplt);
 
